@@ -251,8 +251,23 @@ func famC05(rn *Runner) {
 	mirror := map[string]string{"<": ">", "<=": ">=", ">": "<", ">=": "<=", "=": "=", "!=": "!="}
 	for di := 0; di < rn.Scale(8, 100) && !rn.TooMany(); di++ {
 		d := rn.genDoc(rn.Scale(40, 100))
-		env := envShuffled(rn, d)
-		g := NewExprGen(rn.R.Fork(), d, env)
+		// $u: 3-6 nodes in an arbitrary order, $w: 3-6 nodes in reverse document order (small: the bindings travel with every query)
+		env := stdEnv()
+		var us, ws []Path
+		// (nodes deep in the tree: the string-value of a large subtree is a numeral of hundreds of digits, and the model
+		// converts it exactly for every pair)
+		for k, n := 0, 3+rn.R.Intn(4); k < 40 && len(us) < n; k++ {
+			if p := pick(rn.R, d.Paths); len(p) >= 3 {
+				us = append(us, p)
+			}
+		}
+		for i := len(d.Paths) - 1; i >= 0 && len(ws) < 6; i-- {
+			if rn.R.Chance(1, 4) && len(d.Paths[i]) >= 3 {
+				ws = append(ws, d.Paths[i])
+			}
+		}
+		g := NewExprGen(rn.R.Fork(), d, env) // before $u and $w are bound: the random operands do not filter them in predicates
+		env.Vars = append(env.Vars, VarBind{"", "u", VarVal{Kind: "nodes", Nodes: us}}, VarBind{"", "w", VarVal{Kind: "nodes", Nodes: ws}})
 		env.Vars = append(env.Vars, numVar("n", g.Double()), strVar("s", pick(rn.R, numberStrings)))
 		pool := operandPool(rn, d, g)
 		if di == 0 {
